@@ -15,6 +15,35 @@ def _mk_points(tp, torch):
     return X, U
 
 
+def _points_pair(tp, torch, n, grid=1):
+    """the data set: sample i = input (i, i + 0.5), target 2 i + 1.  grid = M > 1: every sample carries a further axis of M
+    locations (Points of shape [n, M, dim], as for discretised functions): input (i, j + 0.5) at location j, target 2 i + 1"""
+    X, U = _mk_points(tp, torch)
+    idx = torch.arange(n, dtype=torch.float32)
+    if grid <= 1:
+        return (tp.spaces.Points(torch.stack([idx, idx + 0.5], dim=1), X), tp.spaces.Points((idx * 2 + 1).reshape(-1, 1), U))
+    j = torch.arange(grid, dtype=torch.float32)
+    x = torch.stack([idx[:, None].expand(n, grid), (j + 0.5)[None, :].expand(n, grid)], dim=2)
+    y = (idx * 2 + 1)[:, None, None].expand(n, grid, 1).clone()
+    return tp.spaces.Points(x.clone(), X), tp.spaces.Points(y, U)
+
+
+def _decode(xb, yb, grid=1):
+    """sample ids of a batch and whether its rows are intact"""
+    xt, yt = xb.as_tensor, yb.as_tensor
+    if grid <= 1:
+        xs, ys = xt[:, 0].tolist(), yt[:, 0].tolist()
+        ok = len(xs) == len(ys) and all(2 * a + 1 == c for a, c in zip(xs, ys))
+        return xs, ys, ok, xt[:, 1].tolist() == [a + 0.5 for a in xs]
+    if xt.dim() != 3 or yt.dim() != 3 or xt.shape[1] != grid or yt.shape[1] != grid:
+        return [], [], False, False
+    xs, ys = xt[:, 0, 0].tolist(), yt[:, 0, 0].tolist()
+    ok = len(xs) == len(ys) and all(2 * a + 1 == c for a, c in zip(xs, ys))
+    ok = ok and all(yt[:, j, 0].tolist() == ys for j in range(grid))
+    intact = all(xt[:, j, 0].tolist() == xs and xt[:, j, 1].tolist() == [j + 0.5] * len(xs) for j in range(grid))
+    return xs, ys, ok, intact
+
+
 # ------------------------------------------------------------------------------------------
 # implementation runs (canonical text identical to the driver's replies)
 
@@ -22,28 +51,25 @@ def run_points(case):
     tp = common.use_repo()
     import torch
     n, bs, drop, shuffle = case["n"], case["bs"], case["drop"], case["shuffle"]
-    X, U = _mk_points(tp, torch)
-    idx = torch.arange(n, dtype=torch.float32)
-    xin = tp.spaces.Points(torch.stack([idx, idx + 0.5], dim=1), X)
-    yout = tp.spaces.Points((idx * 2 + 1).reshape(-1, 1), U)
+    grid = case.get("grid", 1)
+    xin, yout = _points_pair(tp, torch, n, grid)
     given = (xin.as_tensor.clone(), yout.as_tensor.clone())
     loader = tp.utils.PointsDataLoader((xin, yout), batch_size=bs, shuffle=bool(shuffle), drop_last=bool(drop))
     batches, problems, seen = [], [], []
     if (n + bs) % 3 == 0:
         # a second, shuffling loader over the same user Points, built and read before the first one is iterated
         for xb2, yb2 in tp.utils.PointsDataLoader((xin, yout), batch_size=bs, shuffle=True):
-            if any(2 * a + 1 != c for a, c in zip(xb2.as_tensor[:, 0].tolist(), yb2.as_tensor[:, 0].tolist())):
+            if not _decode(xb2, yb2, grid)[2]:
                 problems.append("second loader built from the same Points: pairing broken")
                 break
     if not (torch.equal(given[0], xin.as_tensor) and torch.equal(given[1], yout.as_tensor)):
         problems.append("constructing / reading a loader changed the user's Points in place")
     for b in loader:
         xb, yb = b
-        xs = xb.as_tensor[:, 0].tolist()
-        ys = yb.as_tensor[:, 0].tolist()
-        if len(xs) != len(ys) or any(2 * a + 1 != c for a, c in zip(xs, ys)):
-            problems.append(f"pairing broken in batch {len(batches)}: inputs {xs} targets {ys}")
-        if xb.as_tensor[:, 1].tolist() != [a + 0.5 for a in xs]:
+        xs, ys, paired, intact = _decode(xb, yb, grid)
+        if not paired:
+            problems.append(f"pairing broken in batch {len(batches)}: inputs {xs} targets {ys} (shapes {tuple(xb.as_tensor.shape)} / {tuple(yb.as_tensor.shape)})")
+        if not intact:
             problems.append("input rows torn apart")
         if len(xs) > bs:
             problems.append(f"batch of {len(xs)} rows, requested {bs}")
@@ -67,10 +93,8 @@ def run_points_passes(case):
     tp = common.use_repo()
     import torch
     n, bs, drop, shuffle = case["n"], case["bs"], case["drop"], case["shuffle"]
-    X, U = _mk_points(tp, torch)
-    idx = torch.arange(n, dtype=torch.float32)
-    xin = tp.spaces.Points(torch.stack([idx, idx + 0.5], dim=1), X)
-    yout = tp.spaces.Points((idx * 2 + 1).reshape(-1, 1), U)
+    grid = case.get("grid", 1)
+    xin, yout = _points_pair(tp, torch, n, grid)
     loader = tp.utils.PointsDataLoader((xin, yout), batch_size=bs, shuffle=bool(shuffle), drop_last=bool(drop),
                                        num_workers=case.get("workers", 0))
     iters = [iter(loader) for _ in range(case["passes"])] if case["interleaved"] else None
@@ -93,9 +117,8 @@ def run_points_passes(case):
     for j, batches in enumerate(got):
         seen = []
         for b, (xb, yb) in enumerate(batches):
-            xs = xb.as_tensor[:, 0].tolist()
-            ys = yb.as_tensor[:, 0].tolist()
-            if len(xs) != len(ys) or any(2 * a + 1 != c for a, c in zip(xs, ys)) or xb.as_tensor[:, 1].tolist() != [a + 0.5 for a in xs]:
+            xs, ys, paired, intact = _decode(xb, yb, grid)
+            if not (paired and intact):
                 problems.append(f"pass {j}: pairing broken in batch {b}: inputs {xs} targets {ys}")
             if len(xs) > bs:
                 problems.append(f"pass {j}: batch of {len(xs)} rows, requested {bs}")
@@ -226,8 +249,16 @@ def run_fold(case):
     xs = [Fraction(a, 8) * sc for a in case["x"]]
     ys = [Fraction(a, 8) * sc for a in case["y"]]
     n = len(xs)
-    xin = tp.spaces.Points(torch.tensor([[float(a), 0.0] for a in xs], dtype=torch.float64), X)
-    yout = tp.spaces.Points(torch.tensor([[float(a)] for a in ys], dtype=torch.float64), U)
+    xt = torch.tensor([[float(a), 0.0] for a in xs], dtype=torch.float64)
+    yt = torch.tensor([[float(a)] for a in ys], dtype=torch.float64)
+    grid = case.get("grid", 1) if case.get("loader", "points") == "points" else 1
+    if grid > 1:
+        # every sample carries a further axis of `grid` locations with the same values: Points of shape [n, grid, dim];
+        # per-batch means and maxima are those of the n samples
+        xt = xt[:, None, :].expand(n, grid, 2).clone()
+        yt = yt[:, None, :].expand(n, grid, 1).clone()
+    xin = tp.spaces.Points(xt, X)
+    yout = tp.spaces.Points(yt, U)
 
     class First(tp.models.Model):
         def __init__(self):
@@ -235,7 +266,7 @@ def run_fold(case):
 
         def forward(self, p):
             p = self._fix_points_order(p)
-            return tp.spaces.Points(p.as_tensor[:, :1], U)
+            return tp.spaces.Points(p.as_tensor[..., :1], U)
 
     if case.get("loader", "points") == "torch":
         # a plain torch DataLoader over one (input row, target row) pair per item, collated to Points
@@ -363,12 +394,13 @@ def gen_cases(ctx):
         for bs in range(1, N + 3):
             for drop in (0, 1):
                 for shuffle in (0, 1):
-                    cases.append(dict(kind="pts", n=n, bs=bs, drop=drop, shuffle=shuffle))
+                    # every second size pair with a further axis of 2-4 locations per sample (Points of shape [n, M, dim])
+                    cases.append(dict(kind="pts", n=n, bs=bs, drop=drop, shuffle=shuffle, grid=[1, 2, 1, 3, 1, 4][(n + 2 * bs + drop) % 6]))
     for i in range(ctx.scale(120, 1200)):
         n = rng.randint(2, 30)
         cases.append(dict(kind="pts2", n=n, bs=rng.randint(1, n + 1), drop=rng.randint(0, 1), shuffle=rng.choice([0, 1, 1]),
                           passes=rng.choice([2, 2, 3]), interleaved=rng.choice([0, 1, 1]),
-                          schedule=[rng.randint(0, 5) for _ in range(7)], workers=0))
+                          schedule=[rng.randint(0, 5) for _ in range(7)], workers=0, grid=rng.choice([1, 1, 2, 3])))
     for i in range(ctx.scale(3, 12)):   # batches dealt to worker processes (each worker owns a copy of the data set)
         n = rng.randint(7, 25)
         cases.append(dict(kind="pts2", n=n, bs=rng.randint(1, 4), drop=0, shuffle=1, passes=2, interleaved=0, schedule=[0],
@@ -395,7 +427,7 @@ def gen_cases(ctx):
         cases.append(dict(kind="fold", x=[rng.randint(-40, 40) for _ in range(n)], y=[rng.randint(-40, 40) for _ in range(n)],
                           bs=rng.randint(1, n + 2), drop=rng.randint(0, 1), norm=rng.choice(["inf", 1, 2, 2, 3]),
                           loader=rng.choice(["points", "points", "torch"]), root=rng.choice([1, 1, 2, 3]), scale=rng.choice([0, 0, 10, 20]),
-                          swap=rng.choice([0, 0, 1])))
+                          swap=rng.choice([0, 0, 1]), grid=rng.choice([1, 1, 2, 3])))
     for _ in range(ctx.scale(100, 1000)):
         nB, nT = rng.randint(1, 7), rng.randint(1, 7)
         cases.append(dict(kind="fold", loader="deeponet", layout=rng.choice(["shared", "unique"]), nB=nB, nT=nT,
@@ -531,6 +563,8 @@ def run(ctx, rep, cases=None):
     for c, r, m in zip(cases, results, replies):
         nontrivial = (c.get("n", 0) >= 2) or (c.get("nB", 0) >= 2 and c.get("nT", 0) >= 2) or (c["kind"] == "fold" and (len(c.get("x", ())) >= 2 or c.get("nB", 0) * c.get("nT", 0) >= 2))
         rep.case(c, nontrivial, sample=dict(case=c, implementation=r.get("text", r.get("value")), model=m), kind=c["kind"] + c.get("layout", "") + c.get("loader", ""))
+        if c.get("grid", 1) > 1:
+            rep.count("points with a further axis per sample (shape [n, M, dim]), M=%d" % c["grid"])
         judge(rep, c, r, m)
     rep.hist["box"] = f"points n<={ctx.scale(7,12)}; deeponet sizes<={ctx.scale(6,9)}"
 
